@@ -542,5 +542,65 @@ class C22(core.Check):
     def signature(self, case, out):
         return '%s' % (out.clause,)
 
+    # ------------------------------------------------------------------
+    # Second phase (engine C): the errno of a C caller of an *embedded* library's extern "Python" function
+    # must reach cffi_call_python() also on the call that starts Python and runs the init code, whatever
+    # the interleaving of the start-up.  Runs the start-up simulator of C28 (real generated _embedding.h
+    # code, stub CPython whose start-up clobbers errno) and reads its errno observation.
+    def _embed_sim(self, tier):
+        from checks import c28
+        sim = c28.CHECK
+        if not getattr(sim, 'exe', None):
+            sim.prepare(tier)
+        return sim
 
-CHECK = C22()
+    def post_batch(self, tier, stats):
+        verif_seed = int(os.environ.get('VERIF_SEED', '0') or 0)
+        sim = self._embed_sim(tier)
+        n = 6000 if tier == 'quick' else 60000
+        rng = PRNG(core.derive(verif_seed, 'C22', 'embed'))
+        cases = [sim.generate(rng.fork(i), i, tier) for i in range(n)]
+        viol = []
+        bad = calls = 0
+        for lo in range(0, n, 2000):
+            part = cases[lo:lo + 2000]
+            for j, (case, o) in enumerate(zip(part, sim.execute_many(part))):
+                k = o.unspecified.get('entry_errno_differs_from_callers', 0)
+                if o.verdict == 'harness':
+                    raise HarnessError('start-up simulator: %s' % o.detail)
+                if k:
+                    bad += 1
+                    if len(viol) < 2:
+                        c2 = dict(case, embed=True, schedule=o.schedule, run_index='E%d' % (lo + j))
+                        outd = dict(verdict='violation', clause='C22.2', op=None, digest=o.digest,
+                                    detail='embedded library: %d call(s) of an extern "Python" function reached '
+                                           'cffi_call_python() with an errno that is not the C caller\'s (the start-up '
+                                           'of Python ran in between)' % k)
+                        path = core.write_replay(self, c2, outd, tier, verif_seed, tag='embed')
+                        viol.append((c2, outd, path))
+        stats.extra['embedded_startup_errno'] = dict(
+            runs=n, runs_with_mismatch=bad,
+            note='engine C (start-up simulator of C28): errno of the C caller vs errno at the entry of '
+                 'cffi_call_python, for every call including the one that initializes Python')
+        return viol
+
+
+class _C22(C22):
+    def execute(self, case):
+        if case.get('embed'):
+            sim = self._embed_sim('quick')
+            o = sim.execute(dict((k, v) for k, v in case.items() if k not in ('embed', 'run_index')))
+            out = Outcome()
+            out.digest = o.digest
+            out.steps = o.steps
+            k = o.unspecified.get('entry_errno_differs_from_callers', 0)
+            if o.verdict == 'harness':
+                return out.harness(o.detail)
+            if k:
+                out.violate('C22.2', 'embedded library: %d call(s) reached cffi_call_python() with an errno that is '
+                            'not the C caller\'s' % k, 0)
+            return out
+        return C22.execute(self, case)
+
+
+CHECK = _C22()
